@@ -1,6 +1,6 @@
 \* head-state migration + new state on the migrated database, the code as it is (LazyBackfill),
 \* exhaustive, thorough tier: 2 user contracts, 1 system contract, 1 slot, values 0..1, one Cairo-0 and one Sierra
-\* class, 2 blocks before and 3 after the upgrade with <= 2 entries each, <= 2 crashes
+\* class, 2 blocks before and 2 after the upgrade with <= 2 entries each, <= 2 crashes
 CONSTANTS
   Users = {"c1", "c2"}
   Sys = {"sys1"}
@@ -9,7 +9,7 @@ CONSTANTS
   Cairo0 = {"k0"}
   Sierra = {"k1"}
   MaxPre = 2
-  MaxPost = 3
+  MaxPost = 2
   MaxOps = 2
   Vers = {0}
   MaxCrashes = 2
